@@ -1,7 +1,7 @@
 /-
   C06 — Every invocation terminates with a decision for every wanted step.
 -/
-import N2V.Lemmas.SchedWant
+import N2V.Lemmas.SchedExamples
 import N2V.Model.Run
 namespace N2V.C06
 open N2V N2V.Sched
@@ -50,5 +50,69 @@ theorem run_returns {E : Type} (g : Graph) (par : Nat) (c : Choices E) (s : S) (
 theorem inherited_state_kept (g : Graph) (s s' : S) (f : Nat) (h : want g s f = .ok () s') (b : Nat)
     (hb : s.st b = .done) : s'.st b = .done :=
   ((want_lateEq' g s s' f h).1 b .done (Or.inr (Or.inr (Or.inl rfl)))).mpr hb
+
+/-! ### Whole invocations -/
+
+/-- **n2 never aborts with its internal error** (`BUG: no work to do and runner not running`):
+    for every graph without a cycle of ordering edges (`Acyclic`: producers rank below consumers;
+    validation edges are unconstrained) whose cross references are consistent (`DepsOK`, what
+    `Graph::add_build` establishes), every `-j ≥ 1`, every argument vector and every behaviour of
+    the environment — which steps are dirty, in which order commands finish, which fail, whether
+    one is interrupted.  The proof carries, next to the scheduler invariant, the converse
+    bookkeeping facts (`PInv`): a `Ready` build is in the ready queue, a `Queued` one in its pool's
+    queue, a `Want` one has a producer that is not `Done`, producers of wanted builds are wanted,
+    a `Failed` build was counted — through the want phase (with its re-entrant visits) and every
+    step of `Work::run`; in the state where the panic would fire these leave only `Want` builds,
+    each waiting for another, which acyclicity forbids. -/
+theorem never_internal_error {E : Type} {g : Graph} (gok : GraphOK g) (dok : DepsOK g) (acyc : Acyclic g)
+    (a : Run.Args) (hpar : 0 < a.par) (c : Choices E) (e : E) :
+    (Run.build g a c e).2.2 ≠ .bug ∧ ∀ n0, (Run.buildReloaded g a c e n0).2.2 ≠ .bug :=
+  ⟨Run.build_no_bug gok dok acyc a hpar c e, fun n0 => Run.buildReloaded_no_bug gok dok acyc a hpar c e n0⟩
+
+/-- **Success means every wanted step is up to date**: when `run::build` reports success, every
+    build is `Done` or was never wanted; nothing is left waiting, queued, running or failed. -/
+theorem success_means_all_up_to_date {E : Type} {g : Graph} (gok : GraphOK g) (dok : DepsOK g)
+    (acyc : Acyclic g) (a : Run.Args) (hpar : 0 < a.par) (c : Choices E) (e : E) (n : Nat)
+    (h : (Run.build g a c e).2.2 = .done n) (b : Nat) :
+    (Run.build g a c e).1.st b = .unknown ∨ (Run.build g a c e).1.st b = .done :=
+  Run.build_done_settled gok dok acyc a hpar c e n h b
+
+/-- The situation the panic guards against, stated on its own: with the invariants, "something
+    pending, nothing ready, nothing startable, nothing running, nothing failed" is contradictory. -/
+theorem no_stall_state {g : Graph} {par : Nat} {s : S} (inv : Inv g par s) (pi : PInv g s) (acyc : Acyclic g)
+    (hpar : 0 < par) (hpend : ¬ s.pending ≤ 0) (hready : s.ready = [])
+    (hpop : ¬ s.running < par ∨ popQueued s.pools = none) (hrun : s.running ≤ 0)
+    (htf : s.tasksFailed = 0) : False :=
+  no_stall inv pi acyc hpar hpend hready hpop hrun htf
+
+/-- The example graph `b <- c` satisfies the hypotheses (they are not vacuous). -/
+example : DepsOK Ex.g0 ∧ Acyclic Ex.g0 := by
+  refine ⟨⟨?_, ?_⟩, ⟨fun b => b, ?_⟩⟩
+  · intro f p h
+    unfold Ex.g0 at h ⊢
+    simp only at h ⊢
+    split at h
+    · cases h; rename_i hf; subst hf; decide
+    · split at h
+      · cases h; rename_i hf; subst hf; decide
+      · cases h
+  · intro b f hf
+    unfold Ex.g0 at hf ⊢
+    simp only at hf ⊢
+    split at hf
+    · cases hf
+    · split at hf
+      · simp at hf; subst hf; rename_i hb; simp [hb]
+      · cases hf
+  · intro b f p hf hp
+    unfold Ex.g0 at hf hp
+    simp only at hf hp
+    split at hf
+    · cases hf
+    · split at hf
+      · simp at hf; subst hf
+        simp at hp; subst hp
+        rename_i hb0 hb; show (0 : Nat) < b; omega
+      · cases hf
 
 end N2V.C06
